@@ -32,6 +32,22 @@ class Kill(BaseException):
     """Unwinds a parked reconnect thread at the end of a scenario."""
 
 
+class Runaway(BaseException):
+    """More fake-API calls during one scenario event than any run of the modelled code makes:
+    the code under test is looping.  Not an Exception, so no handler wrapper swallows it."""
+
+
+LIMIT = 400
+
+
+def tick(eio):
+    eio.ticks += 1
+    if eio.ticks > LIMIT:
+        if eio.ticks == LIMIT + 1:
+            eio.log.append(('runaway',))
+        raise Runaway()
+
+
 class FakeEvent:
     """Instrumented threading.Event created by FakeEio.create_event()."""
 
@@ -52,6 +68,7 @@ class FakeEvent:
         eio = self.eio
         if self is not getattr(eio.client, '_reconnect_abort', None):
             return self.flag            # _connect_event, call(): answers have already arrived
+        tick(eio)
         eio.log.append(('wait', timeout))
         if self.flag:
             return True
@@ -81,7 +98,7 @@ class FakeTask:
     def _run(self, target, args, kwargs):
         try:
             target(*args, **kwargs)
-        except Kill:
+        except (Kill, Runaway):
             pass
         except BaseException as e:      # noqa: B902 - reported, never swallowed silently
             self.error = e
@@ -119,6 +136,7 @@ class FakeEio:
         self.ctl = threading.Semaphore(0)
         self.killed = False
         self.packet_class = None
+        self.ticks = 0
 
     # -- registration, as BaseClient.__init__ does with eio.on --
     def on(self, event, handler=None):
@@ -135,8 +153,6 @@ class FakeEio:
     def _call(self, event, *args):
         try:
             return self.handlers[event](*args)
-        except Kill:
-            raise
         except Exception as e:          # engine.io logs and swallows handler errors
             self.log.append(('handler_error', event, type(e).__name__))
             if event == 'connect':
@@ -148,6 +164,7 @@ class FakeEio:
 
     # -- API used by socketio --
     def connect(self, url, headers=None, transports=None, engineio_path='engine.io'):
+        tick(self)
         self.log.append(('eio_connect', url, headers, transports, engineio_path))
         if self.state != 'disconnected':
             raise ValueError('Client is not in a disconnected state')
@@ -168,6 +185,7 @@ class FakeEio:
             raise eio_exceptions.ConnectionError('Connect handler failed: ' + str(exc))
 
     def send(self, data):
+        tick(self)
         if self.state != 'connected':
             return
         answer = self._sent(data)
@@ -200,6 +218,7 @@ class FakeEio:
         return None
 
     def disconnect(self, abort=False, reason=None):
+        tick(self)
         self.log.append(('eio_disconnect', bool(abort)))
         self._disconnect(reason)
 
@@ -211,6 +230,7 @@ class FakeEio:
         self._reset()
 
     def start_background_task(self, target, *args, **kwargs):
+        tick(self)
         t = FakeTask(self, len(self.tasks), target, args, kwargs)
         self.tasks.append(t)
         self.log.append(('spawn', t.tid))
@@ -259,7 +279,9 @@ class FakeEio:
             task.sem.release()
         else:
             return
-        self.ctl.acquire()
+        if not self.ctl.acquire(timeout=60):
+            self.log.append(('task_hung', task.tid))
+            self.ticks = LIMIT + 2          # make the stuck thread unwind at its next fake call
 
     def live_tasks(self):
         return [t for t in self.tasks if t.started and not t.done]
@@ -348,6 +370,7 @@ class AsyncioShim:
             if ev.flag:
                 return True
             raise asyncio.TimeoutError()
+        tick(eio)
         eio.log.append(('wait', timeout))
         if ev.flag:
             return True
@@ -379,6 +402,7 @@ class FakeAsyncEio:
         self.tasks = []                 # asyncio tasks started through start_background_task
         self.parked = {}                # asyncio task -> gate future
         self.packet_class = None
+        self.ticks = 0
 
     def on(self, event, handler=None):
         self.handlers[event] = handler
@@ -404,6 +428,7 @@ class FakeAsyncEio:
         self.sid = None
 
     async def connect(self, url, headers=None, transports=None, engineio_path='engine.io'):
+        tick(self)
         self.log.append(('eio_connect', url, headers, transports, engineio_path))
         if self.state != 'disconnected':
             raise ValueError('Client is not in a disconnected state')
@@ -424,6 +449,7 @@ class FakeAsyncEio:
             raise eio_exceptions.ConnectionError('Connect handler failed: ' + str(exc))
 
     async def send(self, data):
+        tick(self)
         if self.state != 'connected':
             return
         answer = FakeEio._sent(self, data)
@@ -431,6 +457,7 @@ class FakeAsyncEio:
             await self._call('message', answer)
 
     async def disconnect(self, abort=False, reason=None):
+        tick(self)
         self.log.append(('eio_disconnect', bool(abort)))
         await self._disconnect(reason)
 
@@ -442,6 +469,7 @@ class FakeAsyncEio:
         await self._reset()
 
     def start_background_task(self, target, *args, **kwargs):
+        tick(self)
         tid = len(self.tasks)
         self.log.append(('spawn', tid))
 
@@ -450,6 +478,8 @@ class FakeAsyncEio:
                 await target(*args, **kwargs)
             except asyncio.CancelledError:
                 raise
+            except Runaway:
+                pass
             except BaseException as e:      # noqa: B902
                 self.log.append(('task_error', tid, type(e).__name__))
             self.log.append(('task_end', tid))
